@@ -78,6 +78,9 @@ static inline void l0_range_ok(const E *p, uint64_t n, const char *what) {
                 "C02: element pointer is aligned with the element grid of its buffer");
   }
 }
+/* pointer idioms of the real code that CBMC's pointer checks would flag although C++ defines them (or every implementation does) */
+#define L0_PADD(p, op, n) ((n) == 0 ? (p) : ((p) op (n)))
+#define L0_PTR_CMP(a, op, b) (OBJ(a) == OBJ(b) ? (OFF(a) op OFF(b)) : (OBJ(a) op OBJ(b)))
 #define L0_COUNT(n) ((n) > 0 ? (uint64_t)(n) : (uint64_t)0)
 
 #if CAT_TC
